@@ -60,6 +60,13 @@ pub fn conv_num(x: f64, ty: Ty) -> R<f64> {
                 return Err(OVERFLOW);
             }
             if (x.fract().abs() - 0.5).abs() < 1e-12 {
+                // a tie: decided only if rounding to even and rounding away from zero both leave the range
+                let away = x.round();
+                let fl = x.floor();
+                let even = if (fl / 2.0).fract() == 0.0 { fl } else { fl + 1.0 };
+                if !fits(ty, away) && !fits(ty, even) {
+                    return Err(OVERFLOW);
+                }
                 return inexact("R1: exact tie converted to a whole-number type");
             }
             let r = x.round();
@@ -151,12 +158,6 @@ pub fn binop(op: BinOp, a: &V, b: &V) -> R<V> {
                     let q = x / y;
                     if q * y != *x {
                         return inexact("inexact quotient");
-                    }
-                    // known finding (division narrows its quotient when it is within 1e-4 of a whole
-                    // number): the generators stay out of that zone
-                    let frac = (q - q.round()).abs();
-                    if frac != 0.0 && frac < 0.001 {
-                        return inexact("R22: quotient within 0.001 of a whole number");
                     }
                     check(t, q)
                 }
